@@ -115,6 +115,9 @@ FunIn(scopes, i, name) ==
   ELSE LET sc == scopes[i]  I == {j \in 1..Len(sc) : sc[j].n = name} IN
        IF I # {} THEN sc[CHOOSE j \in I : \A q \in I : j <= q].arity ELSE FunIn(scopes, i - 1, name)
 Arith == {"minus", "times", "divide", "mod"}
+MethodsOf == [str |-> {"len", "slice", "to_uppercase", "to_lowercase", "find", "replace", "trim", "to_number", "split"},
+              num |-> {"abs", "sqrt", "floor", "ceil", "round"},
+              arr |-> {"len", "push", "pop", "reverse", "join"}]
 RECURSIVE TypeOf(_, _)
 TypeOf(e, vs) ==
   CASE e.k \in {"num", "str", "bool", "null", "arr"} -> e.k
@@ -124,6 +127,8 @@ TypeOf(e, vs) ==
                                                  IF l = "str" \/ r = "str" THEN "str" ELSE IF l = "num" /\ r = "num" THEN "num" ELSE "dyn")
                       ELSE "bool")
     [] e.k = "un" -> (IF e.op = "not" THEN "bool" ELSE "num")
+    \* a process command is a value of its own type (never a condition, an operand or an index)
+    [] e.k = "call" /\ e.f = "command" -> "cmd"
     [] OTHER -> "dyn"
 Known(t) == t # "dyn"
 Boolish(t) == t \in {"bool", "null", "dyn"}
@@ -149,7 +154,9 @@ CExpr(e, vs, fs) ==
          LET args == UNION {CExpr(e.as[j], vs, fs) : j \in 1..Len(e.as)}
              ar == IF e.f \in GlobalBuiltins THEN 1 ELSE FunIn(fs, Len(fs), e.f)
          IN args \cup (IF ar < 0 THEN {"undeclared-function"} ELSE IF ar # Len(e.as) THEN {"arity"} ELSE {})
+    \* a method of ANOTHER type on a receiver whose type is statically known (`"abc".push(1)`, `[1].trim()`) is a static error
     [] e.k = "mcall" -> CExpr(e.o, vs, fs) \cup UNION {CExpr(e.as[j], vs, fs) : j \in 1..Len(e.as)}
+                        \cup (LET t == TypeOf(e.o, vs) IN IF t \in DOMAIN MethodsOf /\ e.m \notin MethodsOf[t] THEN {"method"} ELSE {})
     [] e.k = "member" -> CExpr(e.o, vs, fs)
     [] e.k = "callx" -> CExpr(e.o, vs, fs) \cup UNION {CExpr(e.as[j], vs, fs) : j \in 1..Len(e.as)}
     [] OTHER -> {}
